@@ -123,6 +123,36 @@ def gen_edges(rng, n_nodes):
     return es
 
 
+def gen_uncovered_case(rng, kind, k):
+    """Skeletons whose edge list leaves one or two nodes in NO edge, and an animal of which only such
+    node(s) are visible (all its edge endpoints are NaN, yet it passes the in-image filter), at the
+    first / a middle / the last position of the instance list, next to fully visible animals."""
+    stride = rng.choice([1, 2, 4])
+    H, W = stride * rng.randrange(4, 12), stride * rng.randrange(4, 12)
+    n_nodes = rng.choice([3, 4, 5])
+    n_unc = rng.choice([1, 1, 2]) if n_nodes > 3 else 1
+    uncovered = rng.sample(range(n_nodes), n_unc)
+    covered = [i for i in range(n_nodes) if i not in uncovered]
+    edges = [[covered[i], covered[i + 1]] for i in range(len(covered) - 1)]
+    if rng.random() < 0.4 and len(covered) >= 2:
+        edges.append(list(reversed(rng.sample(covered, 2))))
+    n_inst = rng.choice([2, 3, 3, 4])
+    ghost_at = [0, n_inst // 2, n_inst - 1][k % 3]
+    xl, yl = (math.ceil(W / stride) - 1) * stride, (math.ceil(H / stride) - 1) * stride
+    animals = []
+    for a in range(n_inst):
+        pts = gen_animal(rng, H, W, stride, n_nodes, "integer" if rng.random() < 0.5 else "inside")
+        pts = [[p[0] if p[0] is not None else 1.0, p[1] if p[1] is not None else 1.0] for p in pts]
+        if a == ghost_at or (a != (ghost_at + 1) % n_inst and rng.random() < 0.15):
+            for i in covered:
+                pts[i] = [None, None]
+            for i in uncovered:      # strictly inside the open filter box: the ghost animal is kept
+                pts[i] = [lat(rng, 1 / 16, max(xl - 1 / 16, 1 / 16)), lat(rng, 1 / 16, max(yl - 1 / 16, 1 / 16))]
+        animals.append(pts)
+    return {"kind": kind, "H": H, "W": W, "stride": stride, "sigma": rng.choice([0.5, 1.0, 1.5, 2.5]), "n_nodes": n_nodes,
+            "edges": edges, "animals": animals, "uncovered_nodes": uncovered}
+
+
 def gen_sigma(rng, lo=0.3, hi=20.0):
     if rng.random() < 0.65:
         return rng.choice([0.5, 1.0, 1.5, 2.5, 5.0])
@@ -682,6 +712,12 @@ def tags_of(case):
     t = [case["kind"], f"stride{s}", f"edges{min(len(case['edges']), 4)}", f"animals{len(case['animals'])}"]
     if case.get("large"):
         t.append("large_frame")
+    if case.get("uncovered_nodes"):
+        t.append("skeleton_with_edgeless_node")
+    cov = {i for e in case["edges"] for i in e}
+    for k, a in enumerate(case["animals"]):
+        if case["edges"] and any(vis(p) for p in a) and not any(vis(a[i]) for i in cov):
+            t.append("animal_without_visible_edge_endpoint_" + ("first" if k == 0 else "last" if k == len(case["animals"]) - 1 else "middle"))
     if case.get("float_edge_inds"):
         t.append("float32_edge_inds")
     if case.get("stream"):
@@ -832,6 +868,15 @@ def main(chk: Check):
          "history": {"passes": 2, "interleave": False}, "animals": [[[2.0, 3.0], [5.0, 9.0]]],
          "stream": {"before": [{"H": 24, "W": 40, "animals": [[[30.0, 20.0], [12.0, 5.0]]]}],
                     "after": [{"H": 9, "W": 21, "animals": [[[15.0, 4.0], [3.0, 2.0]]]}]}},
+        # a node in no edge: the first animal shows only that node (all its edge endpoints NaN) and is kept by the filter;
+        # the fully visible animals after it must still be drawn (also directly through make_multi_pafs)
+        {"kind": "pafs", "H": 16, "W": 16, "stride": 2, "sigma": 1.0, "n_nodes": 3, "edges": [[0, 1]], "uncovered_nodes": [2],
+         "animals": [[[None, None], [None, None], [5.0, 5.0]], [[3.0, 4.0], [10.0, 9.0], [7.0, 7.0]]]},
+        {"kind": "mpafs", "H": 16, "W": 16, "stride": 2, "sigma": 1.0, "n_nodes": 3, "edges": [[0, 1]], "uncovered_nodes": [2],
+         "animals": [[[None, None], [None, None], [5.0, 5.0]], [[3.0, 4.0], [10.0, 9.0], [7.0, 7.0]]]},
+        {"kind": "dp", "H": 16, "W": 16, "stride": 4, "sigma": 1.5, "n_nodes": 4, "edges": [[0, 1], [1, 2]], "uncovered_nodes": [3],
+         "animals": [[[2.0, 2.0], [6.0, 3.0], [9.0, 9.0], [4.0, 4.0]], [[None, None], [None, None], [None, None], [6.0, 6.0]],
+                     [[10.0, 3.0], [5.0, 8.0], [3.0, 10.0], [None, None]]]},
         # long sides (> 4096 cells of a full-resolution axis), an animal beyond x = 4096 / y = 4096
         {"kind": "pafs", "H": 8, "W": 4608, "stride": 4, "sigma": 2.5, "n_nodes": 2, "edges": [[0, 1]], "large": True,
          "animals": [[[4200.0, 4.0], [4400.0, 4.0]], [[100.0, 2.0], [300.0, 6.0]]]},
@@ -850,6 +895,8 @@ def main(chk: Check):
         cases.append(gen_case(rng, KINDS[k % len(KINDS)]))
     for k in range(chk.n(40, 400)):
         cases.append(gen_large_case(rng, ["pafs", "dp", "pafs_noflat", "mpafs"][k % 4]))
+    for k in range(chk.n(48, 480)):     # edge-less nodes / animals with no visible edge endpoint, at every list position
+        cases.append(gen_uncovered_case(rng, ["pafs", "mpafs", "dp", "pafs_noflat"][k % 4], k // 4))
     cases += [c2 for c in list(cases) for c2 in stream_rotations(c)]
     # ---- the regions the _partial theorems exclude: sampled on purpose (search, not proof coverage)
     n_ex = chk.n(60, 600)
@@ -920,7 +967,8 @@ if __name__ == "__main__":
              "stateless model, and sigma/output_stride/edge_inds/flatten_channels must stay unchanged); edge_inds as int64 tensor or, as production does, torch.Tensor(list) "
              "(float32); 0-4 animals x 1-5 nodes on the k/16 lattice in modes inside / integer / wholly outside / partly outside / "
              "last-stride strip and x=0,y=0 lines / sub-pixel edges / coincident nodes, NaN patterns (node, one coordinate, whole "
-             "animal); edge lists chain / random / repeated+reversed / self-edge / empty; H,W in 1..36 (50% stride multiples), "
+             "animal); edge lists chain / random / repeated+reversed / self-edge / empty / not covering all nodes (1-2 edge-less "
+             "nodes) with animals of which only the edge-less node(s) are visible at the first / middle / last list position; H,W in 1..36 (50% stride multiples), "
              "stride {1,2,4,8}; a large-frame family H,W in 512..4096 with stride 16..64 (grid <= 64 cells a side), long edges, "
              "far-corner animals; sigma {.5,1,1.5,2.5,5} (65%) or log-uniform in [0.3,20] ([0.5,40] on large frames); "
              "distance_to_edge also with coordinates up to 4096; distinct = distinct case; trivial = no animal in the image with "
